@@ -67,6 +67,7 @@ opkinds! {
     // ---- dynamic roots (C14) ----
     Stash = 29, 3;         // (hi, c, set)
     CloneH = 30, 2;        // (from, to)
+    StashPair = 100, 3;    // (hi, c, set): bulk stashing in ONE callback: stash node c into handle hi, then a fresh node into handle hi+1
     StashLeaf = 98, 3;     // (hi, p, set): stash p's leaf (an object of a type that needs no tracing)
     DropHL = 99, 1;        // (hi): drop a leaf handle
     CloneFromH = 92, 2;    // (from, to): `to` is an EXISTING handle: hs[to].clone_from(&hs[from])
